@@ -348,7 +348,11 @@ func runSrcFamilyN(c *vf.Check, cases []srcCase, callsOf func(i int) int, o srcO
 	const per = 400
 	for fi := 0; fi*per < np || fi == 0; fi++ {
 		var b strings.Builder
-		b.WriteString("package nat\n\nimport \"scratch/rt\"\n\nvar _ = rt.Y\n\n")
+		if o.By && fi == 0 {
+			b.WriteString("package nat\n\nimport (\n\t_ \"embed\"\n\n\t\"scratch/rt\"\n)\n\nvar _ = rt.Y\n\n")
+		} else {
+			b.WriteString("package nat\n\nimport \"scratch/rt\"\n\nvar _ = rt.Y\n\n")
+		}
 		if fi == 0 {
 			if o.By {
 				b.WriteString("var All = []func(*rt.Rec, int, int) int{\n")
@@ -393,18 +397,23 @@ func runSrcFamilyN(c *vf.Check, cases []srcCase, callsOf func(i int) int, o srcO
 	hdr := func(pkg string) string {
 		if o.By {
 			// a side-effect import and an import used only by non-generator code: both must survive
-			return "//go:build co\n\npackage " + pkg + "\n\nimport (\n" + importLine + "\t\"scratch/rt\"\n\t_ \"scratch/side" + pkg + "\"\n\t\"scratch/sidecount\"\n)\n\nvar _ = rt.Y\nvar _ " + api + "Iter[int]\nvar _ = sidecount.Has\n\n"
+			return "//go:build co\n\npackage " + pkg + "\n\nimport (\n\t_ \"embed\"\n" + importLine + "\t\"scratch/rt\"\n\t_ \"scratch/side" + pkg + "\"\n\t\"scratch/sidecount\"\n)\n\nvar _ = rt.Y\nvar _ " + api + "Iter[int]\nvar _ = sidecount.Has\n\n"
 		}
 		return "//go:build co\n\npackage " + pkg + "\n\nimport (\n" + importLine + "\t\"scratch/rt\"\n)\n\nvar _ = rt.Y\nvar _ " + api + "Iter[int]\n" + useSeq + "\n"
 	}
 	if o.By {
 		writeFile(filepath.Join(dir, "sidecount", "sidecount.go"), "package sidecount\n\nvar Loaded = map[string]bool{}\n\nfunc Has(s string) int {\n\tif Loaded[s] {\n\t\treturn 1\n\t}\n\treturn 0\n}\n")
+		writeFile(filepath.Join(dir, "nat", "embed.txt"), "hello")
 		for pk := 0; pk*o.PerPkg < np; pk++ {
 			name := fmt.Sprintf("sidegen%03d", pk)
 			writeFile(filepath.Join(dir, name, "side.go"), "package "+name+"\n\nimport \"scratch/sidecount\"\n\nfunc init() { sidecount.Loaded[\""+name+"\"] = true }\n")
 		}
 	}
-	u := unitSpec{N: np, PerPkg: o.PerPkg, Stage: o.Stage, Hdr: hdr,
+	var extraFiles map[string]string
+	if o.By {
+		extraFiles = map[string]string{"embed.txt": "hello"}
+	}
+	u := unitSpec{N: np, PerPkg: o.PerPkg, Stage: o.Stage, Hdr: hdr, Files: extraFiles,
 		File: func(i int) string {
 			if o.By {
 				return coR.byFunc(fmt.Sprintf("B%d", i), arr(run.Progs[i]))
@@ -420,6 +429,7 @@ func runSrcFamilyN(c *vf.Check, cases []srcCase, callsOf func(i int) int, o srcO
 					fmt.Fprintf(&all, "\t%d: B%d,\n", i, i)
 				}
 				all.WriteString("}\n\nfunc GenInAll(r *rt.Rec) " + api + "Iter[int] { " + api + "Yield(1); return nil }\n")
+				all.WriteString("\nvar GenLit = func(r *rt.Rec) " + api + "Iter[int] {\n\t" + api + "Yield(2)\n\treturn nil\n}\n")
 				all.WriteString(optDecls + strings.ReplaceAll(byExtras, "PKG", pkg))
 				return all.String()
 			}
@@ -506,6 +516,7 @@ type unitSpec struct {
 	Hdr    func(pkg string) string             // file header (build tag, package clause, imports)
 	File   func(i int) string                  // declarations of unit i (file p<i>_co.go)
 	All    func(pkg string, live []int) string // registration file all_co.go for the units still alive
+	Files  map[string]string                   // extra (non-Go) files of every package, name -> content
 }
 
 // compileUnits writes the packages gen000.., checks that the rendered source
@@ -535,6 +546,9 @@ func compileUnits(c *vf.Check, dir string, u unitSpec) (status []string, npk int
 			writeFile(filepath.Join(d, fmt.Sprintf("p%d_co.go", i)), u.Hdr(name)+u.File(i))
 		}
 		writeFile(filepath.Join(d, "all_co.go"), u.Hdr(name)+u.All(name, live))
+		for fn, content := range u.Files {
+			writeFile(filepath.Join(d, fn), content)
+		}
 		return d
 	}
 	var mu sync.Mutex
@@ -732,6 +746,11 @@ func prepareStage(c *vf.Check, dir, d string) {
 const byExtras = `
 const K = 40 + 2
 
+// a directive comment on a bystander declaration, in a file that also holds a generator LITERAL
+//
+//go:embed embed.txt
+var embedded string
+
 var initialised = initV()
 
 func initV() int { return 7 }
@@ -741,7 +760,7 @@ type pt struct{ x, y int }
 func (p pt) sum() int { return p.x + p.y }
 
 // Extras exposes the non-function declarations: expected 42, 7, 3, 1
-func Extras() []int { return []int{K, initialised, pt{1, 2}.sum(), sidecount.Has("sidePKG")} }
+func Extras() []int { return []int{K, initialised, pt{1, 2}.sum(), sidecount.Has("sidePKG"), len(embedded)} }
 `
 
 // ---------------------------------------------------------------- judging
